@@ -24,7 +24,7 @@ META = dict(
     level="fault_enumeration",
     technique="directory snapshot before every state-changing filesystem call and inside every write (partial lengths) of random set/replace/delete histories on the real DirDBM; recovery re-run on every snapshot, nested for crashes during recovery; dict model",
     level_text="Every crash point of each generated history is enumerated: before each remove/rename/mkdir/open-for-write, before each write and after 1, n/2, n-1 bytes (every length when n <= 12, plus one generated length) of it, and after each completed operation; crash points inside the recovery of each such state are enumerated recursively (depth <= 3). Histories themselves (keys, values, operation order, reopen points) are sampled by Hypothesis plus a complete enumeration of all histories of length <= 3 over two keys. Two ways of being interrupted at a filesystem call are enumerated: the process is killed there (nothing else runs), or an exception (KeyboardInterrupt, OSError EIO) is raised there and unwinds through DirDBM's own handlers before the process ends. Completed system calls persist in order; no power-loss reordering.",
-    level_note="Trusted: the snapshot recorder (it must see every state-changing call DirDBM makes: checked per case by comparing the recorded call count with the directory's final state) and the dict model. Only DirDBM (not Shelf), keys <= 48 bytes.",
+    level_note="Trusted: the snapshot recorder (it must see every state-changing call DirDBM makes: checked per case by comparing the recorded call count with the directory's final state) and the dict model. DirDBM and a subclass overriding the documented _writeFile/_readFile hooks (not Shelf), keys <= 48 bytes. Histories may contain sets that fail part-way with ENOSPC while the process carries on.",
     design_ref="§5 C51",
     rule="case = (key pool, list of set/del/reopen operations over it, extra partial-write fraction). One evaluation = one history with all its crash states. non-trivial = a crash state that contains a leftover .new/.rpl file or lacks a file the model has (i.e. recovery or old-or-new reasoning was actually needed); distinct by the content of the crash state.",
 )
@@ -130,6 +130,29 @@ class _WFile:
 
     def __getattr__(self, name):
         return getattr(self._f, name)
+
+
+_CLS = {}
+
+
+def _db_class(case):
+    """DirDBM itself, or a subclass that overrides the documented
+    _writeFile/_readFile hooks ("e.g. provide transparently encrypted dirdbm")."""
+    from twisted.persisted import dirdbm
+    if not case.get("subclass"):
+        return dirdbm.DirDBM
+    if "xor" not in _CLS:
+        class XorDBM(dirdbm.DirDBM):
+            def _writeFile(self, path, data):
+                with dirdbm._open(path.path, "wb") as f:
+                    f.write(bytes(b ^ 0x5A for b in data))
+                    f.flush()
+
+            def _readFile(self, path):
+                with dirdbm._open(path.path, "rb") as f:
+                    return bytes(b ^ 0x5A for b in f.read())
+        _CLS["xor"] = XorDBM
+    return _CLS["xor"]
 
 
 class _Interrupt(KeyboardInterrupt):
@@ -238,6 +261,9 @@ def _judge(ctx, case, obs, names, alts, opkey, why):
         ctx.violation("stray-file-visible", case, f"{why}: directory entries {stray} are not keys of the database")
     old, new = before.get(opkey), after.get(opkey)
     got = obs.get(opkey)
+    if old is None and new is None and opkey in obs:
+        ctx.violation("absent-key-resurrected", case,
+                      f"{why}: key {opkey!r} was absent/deleted by the last completed operation and now reads {got!r:.60}; directory {names}")
     if got is None and opkey not in obs:
         ctx.violation("interrupted-key-lost", case,
                       f"{why}: key {opkey!r} had {old!r:.60} and was being set to {new!r:.60}, now absent")
@@ -250,7 +276,7 @@ def _judge(ctx, case, obs, names, alts, opkey, why):
 
 def _recover_and_check(ctx, case, work, counter, tree, alts, opkey, why, depth, extra_frac, holder):
     """Reopen the database on a crash state; recurse into crashes during that recovery."""
-    from twisted.persisted.dirdbm import DirDBM
+    DirDBM = holder["cls"]
     counter[0] += 1
     base = os.path.join(work, f"r{counter[0]}")
     _write_tree(base, tree)
@@ -307,11 +333,13 @@ def _empty_key_op(ctx, case, db, dbdir, model, after, fn, text):
 
 
 def run_case(ctx, case):
-    from twisted.persisted.dirdbm import DirDBM
+    import errno
+    DirDBM = _db_class(case)
+    ctx.count("database class: " + ("subclass overriding _writeFile/_readFile" if case.get("subclass") else "DirDBM"))
     keys = case["keys"]
     ops = case["ops"]
     extra_frac = case.get("frac", 50)
-    holder = {"rec": None}
+    holder = {"rec": None, "cls": DirDBM}
     with harness.scratch_dir("C51") as work, _Patched(holder):
         base = os.path.join(work, "live")
         _os_mkdir(base)
@@ -320,10 +348,11 @@ def run_case(ctx, case):
         holder["rec"] = rec
         model = {}
         opkeys = []
+        failed_before = False
 
         plan = []      # per set/del operation: what is needed to repeat it with a fault injected
 
-        def during(alts, fn, redo=None):
+        def during(alts, fn, redo=None, final=None):
             start = rec.states[-1][2] if rec.states else None
             site0 = rec.site
             rec.alts = alts
@@ -333,7 +362,7 @@ def run_case(ctx, case):
                 return fn()
             finally:
                 rec.active = False
-                rec.alts = alts[-1:]
+                rec.alts = final() if final is not None else alts[-1:]
                 rec.snap("operation complete")
                 if redo is not None:
                     plan.append((start, rec.site - site0, alts, len(opkeys), redo))
@@ -361,11 +390,43 @@ def run_case(ctx, case):
                        redo=lambda d2, k=k, v=v: d2.__setitem__(k, v))
                 opkeys.append(k)
                 model = after
+            elif kind == "setfail":
+                # a set whose write fails part-way with an ordinary error (disk
+                # full); the process carries on with the history
+                k, v, where = keys[op[1] % len(keys)], op[2], op[3] % 3
+                if k == b"":
+                    opkeys.append(k)
+                    continue
+                after = dict(model)
+                after[k] = v
+                rec.inject_at = rec.site + where      # before open / before write / inside write
+                rec.inject_exc = OSError(errno.ENOSPC, "injected: no space left on device")
+                rec.fired = None
+
+                def do_setfail():
+                    try:
+                        db[k] = v
+                    except BaseException:
+                        if rec.fired is None:
+                            raise
+
+                during([dict(model), after], do_setfail,
+                       final=lambda: [dict(model)] if rec.fired is not None else [after])
+                opkeys.append(k)
+                if rec.fired is None:
+                    model = after
+                    ctx.count("op set (injection site not reached)")
+                else:
+                    ctx.count("op set FAILED part-way (%s), process continued" % ("replace" if k in model else "new key"))
+                    failed_before = True
+                rec.inject_at, rec.inject_exc, rec.fired = None, None, None
             elif kind == "del":
                 k = keys[op[1] % len(keys)]
                 after = dict(model)
                 after.pop(k, None)
                 ctx.count("op delete" if k in model else "op delete-missing")
+                if failed_before and k in model:
+                    ctx.count("op delete after an earlier failed set in the same process")
                 if k == b"":
                     def _d():
                         del db[k]
@@ -454,11 +515,12 @@ def _strategy():
         present = []
         ops = []
         for _ in range(n):
-            kind = draw(st.sampled_from(["set", "set", "set", "replace", "replace", "del", "del", "reopen"]))
+            kind = draw(st.sampled_from(["set", "set", "set", "replace", "replace", "del", "del", "reopen",
+                                         "failreplace"]))
             if kind == "reopen":
                 ops.append(("reopen",))
                 continue
-            if kind in ("replace", "del") and present and draw(st.integers(0, 9)) < 9:
+            if kind in ("replace", "del", "failreplace") and present and draw(st.integers(0, 9)) < 9:
                 i = draw(st.sampled_from(present))      # aim at a stored key
             else:
                 i = draw(st.integers(0, len(keys) - 1))
@@ -466,11 +528,13 @@ def _strategy():
                 ops.append(("del", i))
                 if i in present:
                     present.remove(i)
+            elif kind == "failreplace":
+                ops.append(("setfail", i, draw(value), draw(st.integers(0, 2))))
             else:
                 ops.append(("set", i, draw(value)))
                 if i not in present:
                     present.append(i)
-        return dict(keys=keys, ops=ops, frac=draw(st.integers(1, 99)))
+        return dict(keys=keys, ops=ops, frac=draw(st.integers(1, 99)), subclass=draw(st.booleans()))
 
     return history()
 
@@ -501,6 +565,21 @@ def _small_histories(maxlen):
     return rec([])
 
 
+def _failing_histories():
+    """Histories of length 3 over one key (first operation a set) in which sets may fail part-way
+    (at open / at write / inside the write) and the process carries on; run on
+    the subclass that overrides the _writeFile hook."""
+    alphabet = [("set", 0, b"v1"), ("set", 0, b"another value"), ("del", 0), ("reopen",),
+                ("setfail", 0, b"replacement!", 0), ("setfail", 0, b"replacement!", 1),
+                ("setfail", 0, b"replacement!", 2)]
+    for a in alphabet[:2] + alphabet[4:5]:
+        for b in alphabet:
+            for c in alphabet:
+                if any(x[0] == "setfail" for x in (a, b, c)):
+                    for sub in (True, False):
+                        yield dict(keys=[b"a"], ops=[a, b, c], frac=50, subclass=sub)
+
+
 def _enum_shard(sub, arg):
     i, n, maxlen = arg
     cases = (c for j, c in enumerate(_small_histories(maxlen)) if j % n == i)
@@ -516,6 +595,8 @@ def run(ctx):
     n = ctx.pick(2, 16)
     ctx.shards(_enum_shard, [(i, n, maxlen) for i in range(n)])
     ctx.extra["complete_histories_up_to_length"] = maxlen
+    if not ctx.has_violation():
+        enumerate_run(ctx, _failing_histories(), run_case)
     ctx.exhaustive = False
     if ctx.has_violation():
         return
